@@ -188,7 +188,11 @@ class FormulaGenerator(ABC, Generic[QuantityT]):
                 predecessors = graph.predecessors(component.component_id)
                 if len(predecessors) == 1:
                     predecessor = predecessors.pop()
-                    if self._is_primary_fallback_pair(predecessor, component):
+                    # The meter can stand in for the component only when everything it
+                    # measures is asked for, otherwise it measures more than that.
+                    if self._is_primary_fallback_pair(
+                        predecessor, component
+                    ) and graph.successors(predecessor.component_id).issubset(components):
                         # predecessor is primary component and the component is one of the
                         # fallbacks components.
                         fallbacks.setdefault(predecessor, set()).add(component)
